@@ -917,5 +917,21 @@ PROPS["C17"]["explanation"] += " (OPENSIZE) HTPstart does not consult the physic
 PROPS["C15"]["rules"] = PROPS["C15"]["rules"] + [rules_conv.rule_dfsd_records_keep_flavour]
 PROPS["C15"]["explanation"] += " (RECFLAVOUR) the decoders of DFSD side records are given, and use, a number type that carries the data set's byte-order flavour."
 
+# round 16
+PROPS["C04"]["rules"] = PROPS["C04"]["rules"] + [rules_cache.rule_shared_seek_state_refreshed]
+PROPS["C04"]["explanation"] += " (SEEKIDX) a chunk transfer routine recomputes the shared chunk coordinates from its own position before it uses them."
+PROPS["C07"]["rules"] = PROPS["C07"]["rules"] + [rules_loops.rule_convert_stride_whole_field]
+PROPS["C07"]["explanation"] += " (FIELDSTRIDE) no stride handed to DFKconvert in VSread/VSwrite is divided by order."
+PROPS["C10"]["rules"] = PROPS["C10"]["rules"] + [rules_sd.rule_hash_match_confirmed]
+PROPS["C10"]["explanation"] += " (HASHCONFIRM) a decision taken on equal name hashes is confirmed by comparing the names."
+PROPS["C11"]["rules"] = PROPS["C11"]["rules"] + [rules_ann.rule_directory_match_both]
+PROPS["C11"]["explanation"] += " (DIRMATCH) a DFAN directory look-up by tag/ref compares both."
+PROPS["C15"]["rules"] = PROPS["C15"]["rules"] + [rules_conv.rule_nt_class_from_type]
+PROPS["C15"]["explanation"] += " (NTCLASS+) every store of the little-endian class byte is chosen by a bit test of DFNT_LITEND."
+PROPS["C18"]["rules"] = PROPS["C18"]["rules"] + [rules_repack.rule_image_annotations_both_tags, rules_tools.rule_grow_init_from_count]
+PROPS["C18"]["explanation"] += " (ANBOTH) an image's annotations are copied for both of its tags. (GROWINIT) new table slots are initialised from the count of used slots."
+PROPS["C19"]["rules"] = PROPS["C19"]["rules"] + [rules_tools.rule_double_parsed_as_double, rules_tools.rule_grow_init_from_count]
+PROPS["C19"]["explanation"] += " (WIDEPARSE) nothing stored through a float64 pointer in hdfimport comes from a float32 local. (GROWINIT) see C18."
+
 NOT_APPLICABLE = {}
 
